@@ -41,6 +41,63 @@ impl<'a> Ctx<'a> {
 /// serializer spells the XML namespace `xml:`): consequence of accepting the rebinding.
 const XML_REBOUND: &str = "not-representable-xml-prefix-rebound";
 
+/// What the oracle reads off an ACCEPTED tree for the last clause of C03 ("whatever is accepted …
+/// whose serialisation is accepted again and reparses deep-equal"): the two guards of
+/// `Props/C03.lean` (`NoReservedDecls`, `PlainPiTargets`, evaluated by the model too: request
+/// `accguard`) and what exactly violates them.
+pub struct TreeGuards {
+    /// `NoReservedDecls`: no namespace node is a reserved (re)binding or a prefixed undeclaration
+    pub no_reserved: bool,
+    /// `PlainPiTargets`: every PI target is an NCName other than `xml` in any letter case
+    pub plain_pi: bool,
+    /// the only violations of `no_reserved` are the legal `xmlns:xml='http://www.w3.org/XML/1998/namespace'`
+    pub only_legal_xml_redeclaration: bool,
+    /// some PI has the target `xml` and data (serialised `<?xml data?>`: refused by the tokenizer)
+    pub xml_pi_with_data: bool,
+}
+
+const XML_NS_NAME: &str = "http://www.w3.org/XML/1998/namespace";
+const XMLNS_NS_NAME: &str = "http://www.w3.org/2000/xmlns/";
+
+fn is_nc_name(s: &str) -> bool {
+    use xmlparser::XmlCharExt;
+    let mut cs = s.chars();
+    match cs.next() {
+        None => false,
+        Some(c) => c != ':' && c.is_xml_name_start() && cs.all(|c| c != ':' && c.is_xml_name()),
+    }
+}
+
+pub fn tree_guards(xot: &Xot, doc: xot::Node) -> TreeGuards {
+    let mut g = TreeGuards { no_reserved: true, plain_pi: true, only_legal_xml_redeclaration: true, xml_pi_with_data: false };
+    for n in xot.all_descendants(doc) {
+        match xot.value(n) {
+            xot::Value::Namespace(ns) => {
+                let p = xot.prefix_str(ns.prefix());
+                let u = xot.namespace_str(ns.namespace());
+                let allowed = p != "xml" && p != "xmlns" && u != XML_NS_NAME && u != XMLNS_NS_NAME && (p.is_empty() || !u.is_empty());
+                if !allowed {
+                    g.no_reserved = false;
+                    if !(p == "xml" && u == XML_NS_NAME) {
+                        g.only_legal_xml_redeclaration = false;
+                    }
+                }
+            }
+            xot::Value::ProcessingInstruction(pi) => {
+                let t = xot.local_name_str(pi.target());
+                if !is_nc_name(t) || t.eq_ignore_ascii_case("xml") {
+                    g.plain_pi = false;
+                }
+                if t == "xml" && pi.data().is_some() {
+                    g.xml_pi_with_data = true;
+                }
+            }
+            _ => {}
+        }
+    }
+    g
+}
+
 fn mode_word(fragment: bool) -> &'static str {
     if fragment {
         "frag"
@@ -159,45 +216,64 @@ pub fn case_mode(ctx: &mut Ctx, xml: &str, fragment: bool, ex: &Expect) {
             for p in &problems {
                 ctx.fail("C03", p, "an accepted tree is not sound", entry, xml);
             }
-            // accepted => serialisation is accepted again and reparses deep-equal
-            if problems.is_empty() && !xml_id_edge_space(&seen.tree) {
+            // accepted => serialisation is accepted again and reparses deep-equal.
+            // Proved in the model under the guards (C03_accepted_roundtrip): every accepted input is
+            // sorted into "guards hold => must round-trip" / "guard violated => known finding classes".
+            let g = tree_guards(&xot, seen.doc);
+            if !resp.starts_with("ok harness-gap") {
+                ctx.sink.emit(
+                    format!("accguard {} {} {}", mode_word(fragment), xml.len(), dump.words),
+                    format!("ok {} {}", g.no_reserved as u8, g.plain_pi as u8),
+                );
+            }
+            let class = if g.no_reserved && g.plain_pi {
+                "guards-hold"
+            } else if !g.no_reserved && !g.only_legal_xml_redeclaration {
+                "guard-violated.reserved-or-undeclaring-declaration"
+            } else if g.xml_pi_with_data {
+                "guard-violated.pi-target-xml-with-data"
+            } else if !g.no_reserved {
+                "guard-violated.legal-redeclaration-of-xml-only"
+            } else {
+                "guard-violated.pi-target-not-plain-ncname"
+            };
+            ctx.sink.stat(&format!("accepted.{}", class));
+            // outside the known findings the serialisation has to be accepted again and to be deep-equal
+            let must_round_trip = (g.no_reserved || g.only_legal_xml_redeclaration) && !g.xml_pi_with_data;
+            if problems.is_empty() {
                 let doc = seen.doc;
+                // one signature for every failure where the guards promise the round trip
+                let mut broken = |ctx: &mut Ctx, specific: &str, what: &str| {
+                    if must_round_trip {
+                        ctx.fail("C03", "accepted-tree-does-not-round-trip", &format!("{} ({})", what, specific), entry, xml);
+                    } else if g.xml_pi_with_data {
+                        ctx.fail("C03", "pi-target-xml-accepted-serialisation-rejected", what, entry, xml);
+                    } else if xml_rebound {
+                        ctx.fail("C03", XML_REBOUND, what, entry, xml);
+                    } else if undeclared {
+                        ctx.fail("C03", "not-representable-prefixed-undeclaration", what, entry, xml);
+                    } else {
+                        ctx.fail("C03", specific, what, entry, xml);
+                    }
+                };
                 match guarded(|| xot.to_string(doc)) {
                     None => ctx.fail("C03", "serialising-accepted-tree-panics", "to_string panicked on a parsed tree", entry, xml),
                     Some(Err(e)) => {
                         let v = format!("{:?}", e);
                         let v = v.split('(').next().unwrap().to_string();
-                        let sig = if xml_rebound { XML_REBOUND.to_string() } else { format!("accepted-tree-not-serialisable-{}", v) };
-                        ctx.fail("C03", &sig, "to_string failed on a parsed tree", entry, xml)
+                        broken(ctx, &format!("accepted-tree-not-serialisable-{}", v), "to_string failed on a parsed tree")
                     }
                     Some(Ok(s)) => {
                         let again = guarded(|| if fragment { xot.parse_fragment(&s) } else { xot.parse(&s) });
                         match again {
                             None => ctx.fail("C03", "reparse-panics", "reparsing the serialisation panicked", entry, xml),
-                            Some(Err(e)) => {
-                                let raw_uri = vocab.namespaces.iter().any(|n| n.0.contains('"') || n.0.contains('<') || n.0.contains('&'));
-                                if xml_rebound {
-                                    ctx.fail("C03", XML_REBOUND, "the serialisation of an accepted tree is rejected", entry, xml)
-                                } else if raw_uri {
-                                    ctx.fail("C03", "serialisation-rejected-namespace-uri-written-raw", "the serialisation of an accepted tree is rejected", entry, xml)
-                                } else {
-                                    ctx.fail("C03", &format!("serialisation-rejected-{}", err_variant(&e)), "the serialisation of an accepted tree is rejected", entry, xml)
-                                }
-                            }
+                            Some(Err(e)) => broken(ctx, &format!("serialisation-rejected-{}", err_variant(&e)), "the serialisation of an accepted tree is rejected"),
                             Some(Ok(d2)) => {
                                 if !xot.deep_equal(doc, d2) {
-                                    // an undecoded URI is escaped once more by the serializer
-                                    let undecoded = vocab.namespaces.iter().any(|n| xot::verif_hooks::serialize_attribute(&n.0) != n.0);
-                                    let sig = if xml_rebound {
-                                        XML_REBOUND
-                                    } else if undecoded {
-                                        "reparse-differs-namespace-uri-not-decoded"
-                                    } else {
-                                        "reparse-differs"
-                                    };
-                                    ctx.fail("C03", sig, "the serialisation reparses to a different tree", entry, xml);
+                                    broken(ctx, "reparse-differs", "the serialisation reparses to a different tree");
                                 } else {
                                     ctx.sink.stat("reparse.equal");
+                                    ctx.sink.stat(&format!("accepted.{}.round-trips", class));
                                 }
                             }
                         }
@@ -399,6 +475,7 @@ pub const CORPUS: &[&str] = &[
     "<a xmlns:xmlns='zzz'/>",
     "<a xmlns:p=''><p:b/></a>",
     "<a xmlns:xml='http://www.w3.org/XML/1998/namespace' xml:id='i'/>",
+<<<<<<< HEAD
     // C17 slices: the witness of Props/C17 (sliceWitness), runs that start / end inside a CDATA
     // section or contain an empty one, names written with a leading colon
     "<p:a xmlns:p=\"u\" b=\"x&#10;y\">t&lt;<![CDATA[c]]><!--k--><?pi d?></p:a>",
@@ -406,12 +483,24 @@ pub const CORPUS: &[&str] = &[
     "<a>x<![CDATA[]]></a>",
     "<:a/>",
     "<a :b='1'/>",
+=======
+    // C03_accepted_*: the witnesses of Props/C03.lean and what the tokenizer lets through
+    "<a xmlns:p='' p:xmlns='v'/>",
+    "<a xmlns:xml='' xmlns:p='http://www.w3.org/XML/1998/namespace' p:id='i'/>",
+    "<a><?xml\tx?></a>",
+    "<a><?xml?></a>",
+    "<a><?XML x?></a>",
+    "<a><?a:b x?></a>",
+    "<:a :b='1'/>",
+    "<r xmlns=\"urn:a\" xmlns:p=\"urn:b\" k=\"&lt;&#x41;&amp;\"><p:c xml:id=\" i \"/><![CDATA[x]]>y&#xD;<!--c--><?t d?><e xmlns=\"\"/></r>",
+    "<a xmlns:p='http://www.w3.org/2000/xmlns/'><p:b/></a>",
+>>>>>>> wt-accepted
 ];
 
 const SNIPPETS: &[&str] = &[
     "<a>", "</a>", "<a/>", "<b>", "</b>", "<p:a>", "</p:a>", "<a ", " b='1'", " b=\"", "'", "\"", ">", "/>", " xmlns:p='u'", " xmlns='v'",
     " xml:id=' i '", " p:b='2'", "&amp;", "&#65;", "&#x", ";", "&", "<![CDATA[", "]]>", "<!--", "-->", "--", "<?pi ", "?>", "<?xml version='1.0'?>",
-    "<!DOCTYPE a>", "t", " ", "\r\n", "\r", "é", "\u{1f600}", "<", "=", "]]", "\u{feff}", "\u{0}", "\u{fffe}",
+    "<?x:y ", "<?xml\t", "<!DOCTYPE a>", "t", " ", "\r\n", "\r", "é", "\u{1f600}", "<", "=", "]]", "\u{feff}", "\u{0}", "\u{fffe}",
 ];
 
 pub fn snippet_string(rng: &mut Rng) -> String {
